@@ -12,9 +12,11 @@ import Glom.Model.C13Env
     "actions": [{"a":"register","reg":i,"ty":t,"exact":b,"kw":[[op,hname|null]…]}
                |{"a":"register_op","reg":i,"op":o,"auto":f,"exact":b}
                |{"a":"lookup","reg":i,"op":o,"ty":t,"raise":b}
-               |{"a":"glom","reg":i,"spec":"get"|"iterate"|"assign"|"delete"|"star","ty":t}]
+               |{"a":"glom","reg":i,"spec":"get"|"iterate"|"assign"|"delete"|"star","ty":t}
+               |{"a":"create","reg":i}]        (constructs registry i; must precede its other actions)
     "impl":   {"obs":[ null                                   (register)
                      | {"order":[t…]}                         (register_op: observed set order)
+                     | {"created":[[op,[t…]]…]}               (create: ops a Glommer copied, set orders)
                      | {"calls":[{"op","ty","raise","ans"}…],"ran":[tag…]} …],
                "trees":[[[op,forest]…]…], "init_trees":[[[op,forest]…]…]}
     ans: {"ret":hname|null} | "unregistered" | "keyError"      forest: [[ty,forest]…]
@@ -97,6 +99,7 @@ inductive CAct where
   | registerOp (reg : Nat) (op : Op) (auto : String) (exact : Bool)
   | lookup (reg : Nat) (op : Op) (ty : Ty) (raiseExc : Bool)
   | glom (reg : Nat) (spec : String) (ty : Ty)
+  | create (reg : Nat)
 
 def cactOfJson (j : Json) : Except String CAct := do
   let a ← j.getObjValAs? String "a"
@@ -112,6 +115,7 @@ def cactOfJson (j : Json) : Except String CAct := do
     return .lookup reg (← j.getObjValAs? String "op") (← j.getObjValAs? String "ty")
       (← j.getObjValAs? Bool "raise")
   | "glom" => return .glom reg (← j.getObjValAs? String "spec") (← j.getObjValAs? String "ty")
+  | "create" => return .create reg
   | _ => throw s!"bad action {a}"
 
 /-- the `get_handler` calls one real `glom` / `assign` / `delete` call performs (each with
@@ -151,6 +155,7 @@ def expectedRan (spec : String) (calls : List Call) : List String :=
 
 structure ImplObs where
   order : Option (List Ty) := none
+  created : List (Op × List Ty) := []
   calls : List Call := []
   ran : List String := []
 
@@ -167,14 +172,21 @@ def implObsOfJson (j : Json) : Except String ImplObs := do
     let ran ← (match j.getObjVal? "ran" with
       | .ok c => listOfJson strOfJson c
       | .error _ => pure [])
-    return { order, calls, ran }
+    let created ← (match j.getObjVal? "created" with
+      | .ok c => listOfJson (pairOfJson strOfJson (listOfJson strOfJson)) c
+      | .error _ => pure [])
+    return { order, created, calls, ran }
 
-def treesOfJson (j : Json) : Except String (List (List (Op × Forest))) :=
-  listOfJson (listOfJson (pairOfJson strOfJson forestOfJson)) j
+def treesOfJson (j : Json) : Except String (List (Option (List (Op × Forest)))) :=
+  listOfJson (fun x => match x with
+    | .null => pure none
+    | _ => do return some (← listOfJson (pairOfJson strOfJson forestOfJson) x)) j
 
-def sameTrees (model : List (Op × Forest)) (impl : List (Op × Forest)) : Bool :=
-  impl.all (fun p => (odGet p.1 model).getD .nil == p.2) &&
-  model.all (fun p => p.2 == .nil || (odGet p.1 impl).isSome)
+def sameTrees (model : List (Op × Forest)) : Option (List (Op × Forest)) → Bool
+  | none => true
+  | some impl =>
+    impl.all (fun p => (odGet p.1 model).getD .nil == p.2) &&
+    model.all (fun p => p.2 == .nil || (odGet p.1 impl).isSome)
 
 def isPerm (a b : List Ty) : Bool :=
   a.length == b.length && a.all (fun x => b.contains x) && b.all (fun x => a.contains x)
@@ -187,18 +199,16 @@ def lookupBranch (H : Hier) (r : Reg) (op : Op) (t : Ty) : String :=
   else match closest H t (r.tree op) with
     | none => "no-match"
     | some c =>
-      let nCand := (candidates H t (r.tree op)).length
+      let m := matching H t (r.tree op)
+      let d := dropSupers H m
       let kind := if (H.mro t).contains c then "base" else "virtual"
-      if nCand > 1 then s!"tree-{kind}-among-{min nCand 3}" else s!"tree-{kind}"
-
-/-- virtual matches among the covering types of one lookup are flat (hypothesis `VirtFlat` of
-    Props/C13) -/
-def virtFlatCover (H : Hier) (top : Ty) (cover : List Ty) (t : Ty) : Bool :=
-  virtFlat H top (applicable H cover t) t
+      let multi := if d.eraseDups.length > 1 then "-among-" ++ toString (min d.eraseDups.length 3) else ""
+      let dropped := if d.length < m.length then "-supers-dropped" else ""
+      s!"tree-{kind}{multi}{dropped}"
 
 /-- diagnostic classification of the lookups on which the property fails (for known-finding
     classifiers); `holds` itself is `checkRun`, not this function -/
-def failingLookups (H : Hier) (S : Setup) (top : Ty) (kinds : List RegKind) :
+def failingLookups (H : Hier) (S : Setup) (kinds : List RegKind) :
     Nat → List RefReg → List (Nat × List (Op × Ty) × List (Op × Ty)) → List (Nat × Op) →
     List Action → List (Option Answer) → List Json
   | _, _, _, _, [], _ => []
@@ -212,11 +222,13 @@ def failingLookups (H : Hier) (S : Setup) (top : Ty) (kinds : List RegKind) :
            let moduleOnly := S.moduleOps.any (fun m => m.op == op) &&
              !(S.builtinOps.any (fun m => m.op == op))
            let stale := (memo.find? (fun m => m.1 == i)).map (fun m => m.2.2.contains (op, t))
+           let isGlommer := match kinds[i]? with | some (.glommer _) => true | _ => false
+           let app := applicable H (ρ.coverOf op) t
            let cls :=
-             if kinds[i]? == some (.glommer true) && moduleOnly then "default-glommer-lacks-mutation-ops"
+             if isGlommer && moduleOnly then "glommer-lacks-module-op"
              else if stale == some true then "register-op-keeps-memo"
-             else if lossy.contains (i, op) then "reregistering-type-that-is-not-its-own-subclass-drops-subtypes"
-             else if !(virtFlatCover H top (ρ.coverOf op) t) then "virtual-match-not-most-specific"
+             else if lossy.contains (i, op) then "reregistering-type-that-is-not-its-own-subclass"
+             else if (minimal H app).length > 1 then "several-minimal-matches"
              else "other"
            [Json.mkObj [("index", n), ("reg", i), ("op", op), ("ty", t), ("class", cls),
              ("allowed", toJson (refAnswers H ρ op t))]]
@@ -239,7 +251,7 @@ def failingLookups (H : Hier) (S : Setup) (top : Ty) (kinds : List RegKind) :
              then lossy ++ [(i, op)] else lossy
          | none => lossy)
       | _ => lossy
-    here ++ failingLookups H S top kinds (n + 1) (refStep H w a) memo' lossy' as os
+    here ++ failingLookups H S kinds (n + 1) (refStep H w a) memo' lossy' as os
 
 def run (j : Json) : Except String Json := do
   let (tab, uni) ← hierOfJson (← j.getObjVal? "hier")
@@ -281,6 +293,30 @@ def run (j : Json) : Except String Json := do
       w := (step H w a).1; acts := acts ++ [a]
       modelAns := modelAns ++ [none]; implAns := implAns ++ [none]
       modelObs := modelObs ++ [Json.null]
+    | .create i =>
+      -- Glommer.__init__: copy the ops of the registry it is created from (the module registry)
+      let isGlommer := match kinds[i]? with | some (.glommer _) => true | _ => false
+      let mut expansion : List Json := []
+      if isGlommer then
+        let base := match kinds.findIdx? (· == RegKind.module) with
+          | some m => (w[m]?).getD (moduleReg H S orders)
+          | none => moduleReg H S orders
+        let own := (w[i]?).getD {}
+        let ops := glommerOps base own
+        if ops.map (·.1) != ob.created.map (·.1) then
+          notes := notes ++ [s!"Glommer() copied ops {ob.created.map (·.1)}, the model expects {ops.map (·.1)}"]
+        for (op, f) in ops do
+          let known := (w[i]?.map Reg.knownTypes).getD []
+          let order := ((ob.created.find? (·.1 == op)).map (·.2)).getD known
+          if !(isPerm order known) then
+            notes := notes ++ [s!"Glommer() op {op}: order {order} is not a permutation of the known types {known}"]
+          let a := Action.registerOp i op f false order
+          w := (step H w a).1; acts := acts ++ [a]
+          modelAns := modelAns ++ [none]; implAns := implAns ++ [none]
+          expansion := expansion ++ [Json.str op]
+      else if !ob.created.isEmpty then
+        notes := notes ++ ["create of a non-Glommer reported copied ops"]
+      modelObs := modelObs ++ [Json.mkObj [("created", Json.arr expansion.toArray)]]
     | .lookup i op t re =>
       match w[i]? with
       | none => throw s!"no registry {i}"
@@ -341,7 +377,7 @@ def run (j : Json) : Except String Json := do
     ("model", Json.mkObj [("obs", Json.arr modelObs.toArray),
       ("trees", Json.arr (w.map (fun r => Json.arr (r.typeTree.map (fun p =>
         Json.arr #[Json.str p.1, forestToJson p.2])).toArray)).toArray)]),
-    ("failing", Json.arr (failingLookups H S tab.top kinds 0 refW
+    ("failing", Json.arr (failingLookups H S kinds 0 refW
         ((List.range kinds.length).map (fun i => (i, [], []))) [] acts implAns).toArray),
     ("branch", "+".intercalate sorted),
     ("why", "; ".intercalate why)]
